@@ -122,6 +122,13 @@ func init() {
 		ex.mapOrderInsertion = a[0].(bool)
 		return nil
 	})
+	v("Quiesce", func(ex *Exec, c *frame, fn *ssa.Function, a []Value) Value {
+		return int64(ex.scheduler().quiesce())
+	})
+	v("Yield", func(ex *Exec, c *frame, fn *ssa.Function, a []Value) Value {
+		ex.scheduler().yield("yield")
+		return nil
+	})
 	v("AtomicOps", func(ex *Exec, c *frame, fn *ssa.Function, a []Value) Value { return int64(ex.atomicOps) })
 	// FreezeGlobals(tag, pkgs...): every package-level variable of the named module packages (and what they
 	// reach) is frozen under tag.
